@@ -1,4 +1,5 @@
 import CattrsModel.Dispatch.LemmasHist
+import CattrsModel.Dispatch.Sig
 /-!
 # C07 — hook precedence follows the documented rule after any registration history
 
@@ -66,6 +67,48 @@ theorem C07_factory_args (F : Facts) (cfg : Cfg) (h : List Op) (t : TyKey) (e : 
       rw [hent]
   rw [(C07_precedence_cached F cfg h t).1, hs]
   constructor <;> intro hk <;> simp [specEntryHook, hk]
+
+/-- **C07_factory_kind.**  "Factories receive T (and the converter when they ask for it)" at the level of the
+factory's signature (`Dispatch/Sig.lean`): for every signature whose second parameter — if there is one — is an
+ordinary positional parameter or a defaulted keyword-only one, `_is_extended_factory` (the code, `Sig.kindOf`) files
+the factory as converter-taking exactly when it exposes an additional required parameter (the documented rule,
+`Sig.asksConverter`) — whatever else follows: further optional parameters, `*args`, `**kwargs`, keyword-only
+parameters; and on EVERY signature a factory that asks is filed as extended, and the call cattrs then makes binds
+whenever the documented call binds, unless the second parameter is `**kwargs`. -/
+theorem C07_factory_kind (s : Sig.Sig) :
+    (Sig.regular s = true → Sig.kindOf s = (if Sig.asksConverter s then Kind.extended else Kind.factory)) ∧
+    (Sig.asksConverter s = true → Sig.kindOf s = Kind.extended) ∧
+    (Sig.acceptsPos s (Sig.docArity s) = true → (∀ p q rest, s = p :: q :: rest → q.kind ≠ .varKw) →
+      Sig.acceptsPos s (Sig.implArity s) = true) := by
+  refine ⟨fun h => ?_, fun h => ?_, Sig.impl_call_binds s⟩
+  · unfold Sig.kindOf; rw [Sig.isExtended_eq_asks s h]
+  · unfold Sig.kindOf; rw [Sig.asks_imp_extended s h]; rfl
+
+/-- **C07_factory_receives.**  The two halves joined: when the rule reaches, for `t`, a hook factory that was
+registered from a (regular) signature `s`, the hook returned for `t` is that factory applied to `t` — and to the
+converter iff the signature asks for it. -/
+theorem C07_factory_receives (F : Facts) (cfg : Cfg) (h : List Op) (t : TyKey) (e : Entry) (s : Sig.Sig)
+    (hreg : Sig.regular s = true) (hk : e.kind = Sig.kindOf s)
+    (hcls : (F.mro t).findSome? (classHook F cfg h) = none)
+    (hent : (userEntries F cfg h ++ cfg.preds).find? (fun e => specAccepts F cfg h e t) = some e) :
+    (dispatch F (run F (init cfg) h) t).2 =
+      .made e.tag t (Sig.asksConverter s) (if e.wantsSubs then (F.sub t).map (spec F cfg h) else []) := by
+  have ha := C07_factory_args F cfg h t e hcls hent
+  rw [(C07_factory_kind s).1 hreg] at hk
+  cases hq : Sig.asksConverter s with
+  | true => rw [hq] at hk; exact ha.2 hk
+  | false => rw [hq] at hk; exact ha.1 hk
+
+/-- **C07_factory_kind_F61_witness** (negative, recorded finding F61).  Outside `Sig.regular` code and documentation
+part: `def fac(typ, **opts)` does not ask for the converter, is filed as extended, and the call `fac(T, converter)`
+does not bind although `fac(T)` would; `def fac(typ, *rest)` is handed a converter it did not ask for. -/
+theorem C07_factory_kind_F61_witness :
+    (let s : Sig.Sig := [⟨.posOrKw, false⟩, ⟨.varKw, false⟩]
+     Sig.asksConverter s = false ∧ Sig.kindOf s = Kind.extended ∧
+       Sig.acceptsPos s (Sig.docArity s) = true ∧ Sig.acceptsPos s (Sig.implArity s) = false) ∧
+    (let s : Sig.Sig := [⟨.posOrKw, false⟩, ⟨.varPos, false⟩]
+     Sig.asksConverter s = false ∧ Sig.kindOf s = Kind.extended ∧ Sig.acceptsPos s (Sig.implArity s) = true) := by
+  decide
 
 /-- **C07_nested.**  The hook used for a type nested inside another one is chosen by the same rule: the hook for
 `t` is the rule's choice at `t`, applied to the hooks *the machine dispatches* for the component types of `t`
@@ -163,6 +206,18 @@ example : spec F cfg [.regHook 5 5] 5 = .user 5 := by decide
 example : (F.mro 4).findSome? (classHook F cfg hist) = none ∧
     ((userEntries F cfg hist ++ cfg.preds).find? (fun e => specAccepts F cfg hist e 4)).map (·.tag) = some 4 := by
   decide
+
+-- signatures: `def f(typ, upper=False, **opts)` is a plain factory, `def f(typ, converter, flag=False, **kw)` an
+-- extended one; both regular, both calls bind
+example : Sig.regular [⟨.posOrKw, false⟩, ⟨.posOrKw, true⟩, ⟨.varKw, false⟩] = true ∧
+    Sig.kindOf [⟨.posOrKw, false⟩, ⟨.posOrKw, true⟩, ⟨.varKw, false⟩] = Kind.factory ∧
+    Sig.kindOf [⟨.posOrKw, false⟩, ⟨.posOrKw, false⟩, ⟨.posOrKw, true⟩, ⟨.varKw, false⟩] = Kind.extended ∧
+    Sig.acceptsPos [⟨.posOrKw, false⟩, ⟨.posOrKw, true⟩, ⟨.varKw, false⟩] 1 = true ∧
+    Sig.acceptsPos [⟨.posOrKw, false⟩, ⟨.posOrKw, false⟩, ⟨.posOrKw, true⟩, ⟨.varKw, false⟩] 2 = true := by decide
+-- hypotheses of C07_factory_receives are satisfiable: list[B], the extended factory registered from `(t, c)`
+example : (dispatch F (run F (init cfg) hist) 4).2 = .made 4 4 true [.user 1] :=
+  (C07_factory_receives F cfg hist 4 { pred := .tbl 1, kind := .extended, tag := 4, sub := .cached }
+    [⟨.posOrKw, false⟩, ⟨.posOrKw, false⟩] (by decide) (by decide) (by decide) rfl).trans (by decide)
 
 /-- a BaseConverter-like unstructure table: lists handled by a late-binding hook (300) -/
 def cfgLate : Cfg :=
